@@ -42,7 +42,12 @@ func MatchSignature(topo *topology.FunctionTopology, funcName string, sig Signat
 	details.EntropyDistance = entropyDist
 	details.EntropyMatch = entropyDist <= sigTol
 	if details.EntropyMatch {
-		entropyScore := 1.0 - (entropyDist / sigTol)
+		// A zero tolerance only matches at distance zero: score it as an exact
+		// match instead of dividing 0 by 0 (NaN confidence).
+		entropyScore := 1.0
+		if sigTol > 0 {
+			entropyScore = 1.0 - (entropyDist / sigTol)
+		}
 		scores = append(scores, entropyScore)
 	} else {
 		scores = append(scores, 0.5)
